@@ -241,6 +241,15 @@ def body_builder_types(spec):
                 got = f"{type(e).__name__}: {e}"
             obs.append(Ob("angle_of_any_real_type", got == want and len(want) > 0, {"axis": axis, "type": type(val).__name__},
                           info={"angle": repr(val), "emitted": repr(got)[:200], "for_float": repr(want)[:200]}))
+        # an explicit angle of zero is an angle too: it overrides n / d and emits nothing
+        for zero in (0.0, -0.0, 0):
+            ex = TraceExecutor("ctrl")
+            conn = PipeConnection("app", executor=ex)
+            q = Qubit(conn)
+            getattr(q, "rot_" + axis)(n=1, d=1, angle=zero)
+            conn.flush()
+            got = [t for t in ex.trace if t[0].startswith("rot_")]
+            obs.append(Ob("zero_angle_overrides_n_d", got == [], {"axis": axis, "type": "zero"}, info={"angle": repr(zero), "emitted": repr(got)[:200]}))
         return obs
     return body
 
